@@ -47,6 +47,7 @@ TABLE = [
     ('util.ex_from_sep', 'global:seps', r'\[sep\]$', 'MEMO', 'compiled regex cache (idempotent)'),
     ('schema.SchemaHelper.__init__', 'self', r'\.(_text|schema_elements_by_name|root|schema_elements)$', 'CONSTRUCT', 'helper being built'),
     ('schema.SchemaHelper.__init__', 'schema_elements', r'\.name$', 'TREE', 'decodes element names in place'),
+    ('schema._legacy_annotation', 'se', r'\.(converted_type|scale|precision)$', 'TREE', 'fills in the legacy spelling of an annotation given only as logicalType, while the handle is built (idempotent: only when unset)'),
     ('schema.schema_tree', 'schema', r"\['children'\]", 'TREE', 'clears and refills the children dict of every group element'),
     ('schema.flatten', 'root', r"\['children'\]", 'TREE', 'adds flattened paths to the root'),
     ('schema.flatten', 'schema', r"\['isflat'\]$", 'TREE', 'marks flattened groups'),
